@@ -516,3 +516,131 @@ func genForged(t *rapid.T, pol Policy) (xff, xri string) {
 	}
 	return
 }
+
+// ---------------------------------------------------------------------------------------------
+// Other client-supplied headers
+// ---------------------------------------------------------------------------------------------
+
+// clientHeaders: field lines any HTTP client, SDK, browser or intermediary may put on an admin request.
+// The statement quantifies over header spellings and says the decision does not depend on
+// client-supplied headers; "Bearer <token>" counts in the Authorization field only. "{tok}" stands for
+// the configured token (or a fixed string when none is configured).
+var clientHeaders = map[string][]string{
+	"Accept": {"application/json", "*/*", "text/plain", "text/html,application/xhtml+xml,application/xml;q=0.9,*/*;q=0.8", "application/json, text/plain, */*",
+		"APPLICATION/JSON", "application/json;q=0.1", "text/plain;q=0.9, application/json;q=0.5", "application/vnd.api+json", "application/problem+json", "application/hal+json; charset=utf-8",
+		"text/event-stream", "application/xml", "application/yaml", "application/octet-stream", "", "json", "*/json", "application/*", ";", ",", "application/json,", "text/plain , application/json"},
+	"Accept-Encoding":        {"gzip", "gzip, deflate, br", "identity", "*", "identity;q=0", "zstd"},
+	"Accept-Language":        {"en-US,en;q=0.5", "*", "de"},
+	"Accept-Charset":         {"utf-8", "*"},
+	"Content-Type":           {"application/json", "application/json; charset=utf-8", "text/plain", "application/x-www-form-urlencoded", "multipart/form-data; boundary=x", "application/merge-patch+json", ""},
+	"User-Agent":             {"curl/8.5.0", "axios/1.6.2", "Go-http-client/1.1", "python-requests/2.31.0", "Mozilla/5.0 (X11; Linux x86_64)", "kube-probe/1.29", "Prometheus/2.48.0", "helios-admin/1.0", "", "HealthChecker"},
+	"Origin":                 {"http://localhost:9091", "http://admin.example", "null", "https://evil.example"},
+	"Referer":                {"http://admin.example/v1/health", "http://localhost/"},
+	"X-Requested-With":       {"XMLHttpRequest"},
+	"Cache-Control":          {"no-cache", "max-age=0"},
+	"Pragma":                 {"no-cache"},
+	"Connection":             {"close", "keep-alive", "Upgrade", "keep-alive, Authorization"},
+	"Upgrade":                {"websocket", "h2c"},
+	"Expect":                 {"100-continue"},
+	"Range":                  {"bytes=0-0"},
+	"If-None-Match":          {"*", "\"abc\""},
+	"If-Modified-Since":      {"Wed, 21 Oct 2015 07:28:00 GMT"},
+	"Cookie":                 {"session=admin", "token={tok}", "Authorization=Bearer {tok}"},
+	"X-Api-Key":              {"{tok}", "admin"},
+	"X-Auth-Token":           {"{tok}"},
+	"X-Admin-Token":          {"{tok}"},
+	"Proxy-Authorization":    {"Bearer {tok}", "Basic YWRtaW46YWRtaW4="},
+	"X-Http-Method-Override": {"GET", "POST", "DELETE", "OPTIONS"},
+	"X-Original-Url":         {"/v1/health", "/v1/backends"},
+	"X-Rewrite-Url":          {"/v1/health"},
+	"X-Forwarded-Host":       {"localhost", "admin.example", "127.0.0.1:9091"},
+	"X-Forwarded-Proto":      {"https", "http"},
+	"X-Forwarded-Port":       {"9091", "443"},
+	"Forwarded":              {"for=127.0.0.1", "for=10.0.0.1;proto=https;by=203.0.113.43", "for=\"[::1]\"", "for=unknown"},
+	"Via":                    {"1.1 localhost", "1.1 internal-proxy"},
+	"True-Client-Ip":         {"127.0.0.1", "10.0.0.1", "::1"},
+	"X-Client-Ip":            {"127.0.0.1", "10.0.0.1"},
+	"Cf-Connecting-Ip":       {"127.0.0.1", "10.0.0.1"},
+	"X-Cluster-Client-Ip":    {"127.0.0.1"},
+	"X-Originating-Ip":       {"127.0.0.1"},
+	"X-Remote-Ip":            {"127.0.0.1"},
+	"X-Remote-Addr":          {"127.0.0.1"},
+	"X-Internal":             {"1", "true"},
+	"X-Debug":                {"1"},
+	"X-Request-Id":           {"7c1f", "../../etc/passwd"},
+	"Traceparent":            {"00-4bf92f3577b34da6a3ce929d0e0e4736-00f067aa0ba902b7-01"},
+	"Te":                     {"trailers"},
+	"Dnt":                    {"1"},
+	"Sec-Fetch-Site":         {"same-origin", "cross-site"},
+}
+
+var clientHeaderNames = func() []string {
+	var ns []string
+	for n := range clientHeaders {
+		ns = append(ns, n)
+	}
+	sortStrings(ns)
+	// the content negotiation headers are what every client library sends: drawn more often
+	return append([]string{"Accept", "Accept", "Accept", "Accept", "Content-Type", "User-Agent", "Accept-Encoding", "Origin", "X-Requested-With"}, ns...)
+}()
+
+func sortStrings(a []string) {
+	for i := 1; i < len(a); i++ {
+		for j := i; j > 0 && a[j] < a[j-1]; j-- {
+			a[j], a[j-1] = a[j-1], a[j]
+		}
+	}
+}
+
+// genClientHeaders draws 0..4 further field lines (about half of the requests carry none). A name may
+// repeat (two Accept lines). Every value can pass net/http's parser.
+func genClientHeaders(t *rapid.T, token string) [][2]string {
+	n := rapid.SampledFrom([]int{0, 0, 0, 1, 1, 2, 3, 4}).Draw(t, "nheaders")
+	if n == 0 {
+		return nil
+	}
+	tok := strings.Trim(token, " \t")
+	if tok == "" {
+		tok = "change-me"
+	}
+	out := make([][2]string, 0, n)
+	for i := 0; i < n; i++ {
+		name := rapid.SampledFrom(clientHeaderNames).Draw(t, "hname")
+		v := strings.ReplaceAll(rapid.SampledFrom(clientHeaders[name]).Draw(t, "hvalue"), "{tok}", tok)
+		if !headerValueOK(v) {
+			v = "x"
+		}
+		out = append(out, [2]string{name, v})
+	}
+	return out
+}
+
+// clientHeaderLabels: coverage labels of the extra field lines of a request.
+func clientHeaderLabels(r Req) []string {
+	if len(r.Extra) == 0 {
+		return nil
+	}
+	ls := []string{"other-client-headers"}
+	seen := map[string]bool{}
+	for _, h := range r.Extra {
+		l := "client-header-" + strings.ToLower(h[0])
+		switch {
+		case h[0] == "Accept", h[0] == "Content-Type", h[0] == "User-Agent":
+		case strings.Contains(h[1], "change-me") || strings.HasSuffix(h[0], "-Token") || h[0] == "X-Api-Key" || h[0] == "Proxy-Authorization" || h[0] == "Cookie":
+			l = "client-header-credential-elsewhere"
+		case strings.HasSuffix(h[0], "-Ip") || strings.HasSuffix(h[0], "-Addr") || h[0] == "Forwarded" || h[0] == "Via" || strings.HasPrefix(h[0], "X-Forwarded-"):
+			l = "client-header-other-forwarding"
+		case strings.HasPrefix(h[0], "Accept-"):
+			l = "client-header-accept-other"
+		case h[0] == "X-Http-Method-Override" || h[0] == "X-Original-Url" || h[0] == "X-Rewrite-Url":
+			l = "client-header-method-or-url-override"
+		default:
+			l = "client-header-misc"
+		}
+		if !seen[l] {
+			seen[l] = true
+			ls = append(ls, l)
+		}
+	}
+	return ls
+}
